@@ -338,6 +338,35 @@ theorem match_405_methods_partial {cfg : MapCfg} {specs : List RuleSpec} {m : RM
     obtain ⟨via, hc, hw⟩ := admitsPath_iff.1 hadm
     exact (dfs_acc_complete (reqOf a method ws) m.root hwf _ _ hres r.parts r via hi hc hw).1 hmo x hxm
 
+def specsMerge405 : List RuleSpec :=
+  [ { toks := [.slash, .lit "a".toList, .slash, .lit "b".toList], endpoint := "b".toList, methods := some ["POST".toList] } ]
+
+/-- **`NoMerge` is necessary (negation witness).** With merge_slashes on, the second pass runs on the
+merged path and adds the methods of the rules that admit THAT path: `Map([Rule('/a/b', methods=['POST'])])`,
+`GET /a//b` raises `MethodNotAllowed(['POST'])` although no rule admits `/a//b` itself, for any method
+(`POST /a//b` is redirected to `/a/b`). So "405 exactly when rules admit the path but none for the
+method" holds for the path as requested only when it is not subject to slash merging. -/
+theorem match_405_iff_nomerge_needed :
+    ¬ (∀ (cfg : MapCfg) (specs : List RuleSpec) (m : RMap) (a : Adapter) (p : Str) (meth : Str),
+        mkMap cfg specs = some m → ConvOK m.rules → (∀ r ∈ m.rules, r.methodsOK = true) →
+        (matchAdapter m a p (some meth) .none none).is405 = true →
+        ∃ r ∈ m.rules, admitsPath r (domainPartOf m.cfg a) (pathPart p) = true) := by
+  intro H
+  have hw : (match mkMap {} specsMerge405 with
+      | some m => (matchAdapter m adapter0 "/a//b".toList (some "GET".toList) .none none).is405 &&
+          m.rules.all (fun r => r.methodsOK && r.convTotal &&
+            !admitsPath r (domainPartOf m.cfg adapter0) (pathPart "/a//b".toList)) &&
+          (matchAdapter m adapter0 "/a//b".toList (some "POST".toList) .none none).isRedirect
+      | none => false) = true := by decide +kernel
+  cases hmk : mkMap {} specsMerge405 with
+  | none => simp [hmk] at hw
+  | some m =>
+    simp only [hmk, Bool.and_eq_true, List.all_eq_true, Bool.not_eq_true'] at hw
+    obtain ⟨⟨h1, h2⟩, _⟩ := hw
+    obtain ⟨r, hr, hadm⟩ := H {} specsMerge405 m adapter0 "/a//b".toList "GET".toList hmk
+      (convOK_of_total (fun r hr => (h2 r hr).1.2)) (fun r hr => (h2 r hr).1.1) h1
+    rw [(h2 r hr).2] at hadm; cases hadm
+
 -- non-vacuity: `PUT /a/` on a map with `Rule('/a/', methods=['POST'])` is a 405, no merging involved
 example : (run {} specsPlain "/a/" "PUT").is405 = true ∧ mergeSlashes (pathPart "/a/".toList) = pathPart "/a/".toList := by
   decide +kernel
